@@ -119,7 +119,8 @@ func c19Vector(fields []c19Field, total int, targets []string) string {
 		}
 	}
 	rep := c19Ordinals()
-	got := rep.ToVector(targets).VectorToSlice()
+	first := rep.ToVector(targets) // kept alive until the end: later reads must not disturb it
+	got := first.VectorToSlice()
 	if !slices.Equal(got, want) {
 		return fmt.Sprintf("ToVector lists %d coefficients, the selected fields hold %d (first difference at %d)", len(got), len(want), firstDiff(got, want))
 	}
@@ -175,7 +176,42 @@ func c19Vector(fields []c19Field, total int, targets []string) string {
 	if i != len(want) {
 		return fmt.Sprintf("TunedParams yields %d parameters, ToVector %d", i, len(want))
 	}
+	// the SAME coefficient set asked for another subset afterwards (the complement): nothing may be remembered
+	// from the first request
+	var other []string
+	var want2 []float64
+	for _, f := range fields {
+		if !slices.Contains(targets, f.name) {
+			other = append(other, f.name)
+			for k := 0; k < f.count; k++ {
+				want2 = append(want2, float64(f.first+k+1))
+			}
+		}
+	}
+	i = 0
+	for ix, ptr := range rep.TunedParams(other) {
+		if ix != i || i >= len(want2) || *ptr != want2[i] {
+			return fmt.Sprintf("the same coefficient set asked for %v after %v: TunedParams yields index %d pointing at %v at position %d, expected ordinal %v", other, targets, ix, *ptr, i, at(want2, i))
+		}
+		i++
+	}
+	if i != len(want2) {
+		return fmt.Sprintf("the same coefficient set asked for %v after %v: TunedParams yields %d parameters, expected %d", other, targets, i, len(want2))
+	}
+	if back := rep.ToVector(other).VectorToSlice(); !slices.Equal(back, want2) {
+		return fmt.Sprintf("the same coefficient set asked for %v after %v: ToVector differs at %d", other, targets, firstDiff(back, want2))
+	}
+	if still := first.VectorToSlice(); !slices.Equal(still, want) {
+		return fmt.Sprintf("the vector read first for %v no longer holds its coefficients after other vectors were read (first difference at %d)", targets, firstDiff(still, want))
+	}
 	return ""
+}
+
+func at(xs []float64, i int) any {
+	if i < len(xs) {
+		return xs[i]
+	}
+	return "none (past the end)"
 }
 
 func firstDiff(a, b []float64) int {
@@ -328,12 +364,25 @@ func runC19(r *ev.Run) {
 	}
 	subsets = append(subsets, tuning.DefaultTargets)
 	var vec atomic.Int64
-	ev.Parallel(len(subsets), func(wk, item int) {
+	// the first subsets one after another on this goroutine: a mapping that keeps state between calls (a cache keyed
+	// by the coefficient set, a shared buffer) is judged deterministically before several goroutines use it at once
+	// (where the same defect is a data race that can take the whole process down instead of giving a verdict)
+	seq := min(len(subsets), 800)
+	for item := 0; item < seq; item++ {
 		vec.Add(1)
 		if msg := c19Vector(fields, total, subsets[item]); msg != "" {
 			r.Fail("vector", c19Case{Targets: subsets[item]}, "targets %v: %s", subsets[item], msg)
 		}
-	})
+	}
+	if !r.Failed() {
+		ev.Parallel(len(subsets)-seq, func(wk, item int) {
+			item += seq
+			vec.Add(1)
+			if msg := c19Vector(fields, total, subsets[item]); msg != "" {
+				r.Fail("vector", c19Case{Targets: subsets[item]}, "targets %v: %s", subsets[item], msg)
+			}
+		})
+	}
 	// every declared default target must name a real field (otherwise it is silently never tuned)
 	for _, tname := range tuning.DefaultTargets {
 		if !slices.Contains(names, tname) {
@@ -350,7 +399,7 @@ func runC19(r *ev.Run) {
 	r.Set("coefficient_groups", n)
 	r.Set("coefficients", total)
 	r.Set("subsets_checked", vec.Load())
-	r.Set("rule", "positions of the listed classes (half-move clock rotating through 0..100), tree nodes below the root corpus and full boards with promoted material, loaded with ParseFEN (no hash) as the tuner does: |EngineRep.Eval - white-relative Eval[Score]| < 2.25; vector mapping for subsets of the coefficient groups (quick: all subsets of size <=2 and >= n-2 and DefaultTargets; thorough: every one of the 2^n subsets), every coefficient holding its own ordinal: ToVector lists exactly the targeted ordinals in order, SetVector/ToVector is the identity and leaves other fields alone, TunedParams index i addresses vector element i only; non-trivial = positions with non-zero evaluation")
+	r.Set("rule", "positions of the listed classes (half-move clock rotating through 0..100), tree nodes below the root corpus and full boards with promoted material, loaded with ParseFEN (no hash) as the tuner does: |EngineRep.Eval - white-relative Eval[Score]| < 2.25; vector mapping for subsets of the coefficient groups (quick: all subsets of size <=2 and >= n-2 and DefaultTargets; thorough: every one of the 2^n subsets), every coefficient holding its own ordinal: ToVector lists exactly the targeted ordinals in order, SetVector/ToVector is the identity and leaves other fields alone, TunedParams index i addresses vector element i only, and the same coefficient set asked for the complementary subset right afterwards is answered afresh; non-trivial = positions with non-zero evaluation")
 }
 
 func bitsSet(m int) int {
